@@ -321,6 +321,10 @@ def build(s):
         stmt = {"sig": sig, "x5c": x5c}
     elif fmt == "tpm":
         name_alg = k.get("tpm_name_alg", "SHA256")
+        if "tpm_name_alg_raw" in k:
+            # a known TPM algorithm id for which no digest is mapped (e.g. SM3-256): Name built with SHA-256 as a stand-in
+            HNAME.setdefault(k["tpm_name_alg_raw"], hashlib.sha256)
+            name_alg = k["tpm_name_alg_raw"]
         pub_area = tpm_pub_area(k.get("tpm_pub_cred", cred), name_alg=name_alg, exponent=k.get("tpm_exponent", 0),
                                 unique_override=k.get("tpm_unique"), curve_override=k.get("tpm_curve"), type_override=k.get("tpm_type"))
         hname = ATT_HASH[att_alg] if att_alg in ATT_HASH else "SHA256"
